@@ -85,7 +85,7 @@ def random_tokens(rng, n, max_offset, min_len=2, max_len=257, frame=32768, ref_l
         start = (pos // reset) * reset if reset else -ref_len
         avail = pos - start                     # how far back a match may reach
         if avail > 0 and room >= min_len and rng.random() < p_match:
-            ln = min(rng.choice(lens), room)
+            ln = min(rng.choice(lens), room, max_len)
             if rng.random() < 0.1: ln = min(room, max_len)
             if window and rng.random() < 0.2 and 0 < window - pos % window <= min(room, max_len):
                 ln = max(min_len, window - pos % window)
